@@ -17,6 +17,12 @@ package main
 // agrees with the Spec (the statement of eval_impl_spec, evaluated); the model rendering
 // the compiled registry writes what robfig/soy writes; soyhtml.EvalExpr on closed
 // expressions returns the Spec's value (kind included: Int 2 and Float 2 print alike).
+//
+// What no longer rests on the correspondence alone: for the text ast/node.go's String() writes
+// (minimal parentheses, the printer's spacing) the chain string -> items (scanner model) -> tree
+// (parser model) -> compiled tree -> value (walker model on the parser's own, positioned tree) is
+// a theorem (C01_text_string_to_value).  Still by this oracle only: other spellings of the same
+// tree (spacing, redundant parentheses, hex, escapes) and the 28 statement-level positions.
 
 import (
 	"encoding/json"
